@@ -38,6 +38,12 @@ func init() {
 				}
 			}
 			rng := rand.New(rand.NewSource(c.Seed))
+			// long runs of fifth steps (a full turn and more), with the direction flipping inside the run
+			for _, k := range supportedKeys {
+				for _, ch := range []string{"dddddddddddd", "ssssssssssss", "ddddddddddds", "dddddddddddsd", "sssssssssssd", "ddddddssssssdddddddddddd", "pdddddddddddddr", "dddddddddddddddddddddddd"} {
+					cases = append(cases, Case{"key": k, "chain": ch})
+				}
+			}
 			for i := 0; i < nrand; i++ {
 				n := maxLen + 1 + rng.Intn(maxRand-maxLen)
 				var sb strings.Builder
